@@ -72,7 +72,7 @@ def generate(rng, tier):
         # ---------------- 1-D
         for strat_name, min_len in (("lin", 2), ("spl", 3)):
             for n in range(0, min_len + 3):
-                for trailing in ([], [2], [2, 1], [0], [2, 0], [3, 1]) if (full or n >= min_len - 1) else ([], [0]):
+                for trailing in ([], [2], [2, 1], [0], [2, 0], [3, 1], [2, 3]) if (full or n >= min_len - 1) else ([], [0]):
                     shape = [n] + trailing
                     L = gen.shape_size(trailing)
                     flat = [fmt_v((i * 7) % 5 - 2) for i in range(n * L)]
@@ -92,6 +92,10 @@ def generate(rng, tier):
                                 more = [[1] + [1] * len(trailing), list(trailing), []] if trailing else [[], [1, 1]]
                                 if len(trailing) == 2:
                                     more += [[1, trailing[0], 1] if trailing[0] != 1 or trailing[1] != 1 else [1, 1, 2], [trailing[1]]]
+                                if len(trailing) == 2:
+                                    # right rank, leading 1 and right element count, but permuted / regrouped trailing extents (seed
+                                    # C10-r8m1: a shape check by rank, leading length and number of entries)
+                                    more += [[1, trailing[1], trailing[0]], [1, trailing[0] * trailing[1], 1], [1, 1, trailing[0] * trailing[1]]]
                                 for shp in more:
                                     if shp != ok_shape:
                                         bcs.append(("ind", shp, ["nat"] * gen.shape_size(shp)))
